@@ -14,6 +14,9 @@ CHECKS = {
  'C18': ('model_checking', 'symbolic execution of clang LLVM IR of each definitional relation; z3 nlsat decides identity with the textbook formula over the reals and a K-ulp bound under the standard rounding model (monolithic, or solver-checked local error lemmas composed bottom-up for large expressions)',
          'Each of about 40 definitional entry points (existence pinned by compilation) is executed symbolically in float, double and long double and compared with an independently written textbook formula: exactly over the reals (every constant and argument position) and within K ulps for all positive inputs and all admissible rounding errors.',
          'standard model of rounding (no intermediate overflow/underflow); clang 14 IR at -O1 -ffp-contract=off; composition of local lemmas is trusted; formulas table written from textbooks', '3 C18'),
+ 'C03': ('model_checking', 'symbolic execution of clang LLVM IR of every relation the inventory finds; z3 nlsat decides, one base dimension at a time, that rescaling the inputs by sigma^(2 d) rescales the result by sigma^(2 d_result) for all reals and all sigma > 0',
+         'Every constructor, operator and member function between quantity types (about 900 relations, recomputed from the current tree) is executed symbolically and proved homogeneous of exactly the degree its declared result dimensions predict, for all real inputs and all positive unit rescalings; the declared dimension arithmetic of * / + - is checked as ground facts.',
+         'exact real arithmetic; declared exponents read from the IR constants of X::Dimensions(); quick tier analyses the double instantiation of the templates, thorough all three; libm other than sqrt/fabs uninterpreted', '3 C03'),
 }
 NA = {}
 def main():
